@@ -123,6 +123,10 @@ func runC15(c *Ctx) {
 			if errS != "" || panicS != "" {
 				continue
 			}
+			if cf.Ext == "core" && len(src) <= 600 {
+				// the model of Convert with parser.WithAutoHeadingID() (model/HeadingIds.v)
+				convertAutoIDCase(c, cf, src)
+			}
 			ids, missing, _ := headingIDs(out)
 			in := map[string]string{"config": cf.Name(), "source": q(src)}
 			if missing > 0 {
